@@ -66,6 +66,7 @@ func (e *FuncEnc) checkEnsures(ret *ssa.Return) {
 			continue
 		}
 		e.obligeNamed(cl.Name, fmt.Sprintf("ret%d", e.retCount), f, ret.Pos())
+		e.Obls[len(e.Obls)-1].Props = cl.Props
 	}
 	if c.RetHook != nil {
 		for _, nf := range c.RetHook(e, e.results) {
